@@ -72,6 +72,7 @@ func (env *Env) recEnter(layer int, exec failsafe.Execution[int]) int {
 		rec.Attempts, rec.Execs, rec.Retries, rec.Hedges, rec.IsHedge = exec.Attempts(), exec.Executions(), exec.Retries(), exec.Hedges(), exec.IsHedge()
 	}
 	env.Recs = append(env.Recs, rec)
+	env.openApps++
 	return app
 }
 
@@ -83,7 +84,11 @@ func (env *Env) recExit(layer, app int, exec failsafe.Execution[int], r *common.
 		rec.Attempts, rec.Execs, rec.Retries, rec.Hedges, rec.IsHedge = exec.Attempts(), exec.Executions(), exec.Retries(), exec.Hedges(), exec.IsHedge()
 	}
 	env.Recs = append(env.Recs, rec)
+	env.openApps--
 }
+
+//go:norace
+func (env *Env) busy() bool { return env.openApps > 0 || env.InFlight > 0 }
 
 // WithProbes returns the policy list with a probe outside every policy and one around the function.
 func (env *Env) WithProbes() []failsafe.Policy[int] {
